@@ -252,7 +252,18 @@ class PathCtx:
         return self.bool("%s!%d" % (hint, self.fresh_counter))
 
     def new(self, cls, **fields):
+        """an input object with this abstract view; for classes with a registered canonical form the concrete
+        representation is produced by the class's real constructor"""
+        from .values import canonical
         o = SObj(cls, fields, fresh=False)
+        if fields:
+            try:
+                c = canonical(o)
+            except RaiseEx:
+                raise Infeasible()      # the real constructor rejects this view: not a value of the class
+            if c is not o:
+                object.__setattr__(c, "fresh", False)
+                o = c
         self.objects.append(o)
         return o
 
@@ -378,9 +389,12 @@ class NativeCtx:
         return self.bool("%s!%d" % (hint, self.fresh_counter))
 
     def new(self, cls, **fields):
+        from .spec import canonical_native
         o = cls.__new__(cls)
         for k, v in fields.items():
             object.__setattr__(o, k, v)
+        if fields:
+            o = canonical_native(o)
         self.objects.append(o)
         return o
 
